@@ -25,7 +25,18 @@ for f2 in sorted(glob.glob(V + "/evidence/C*.json")):
     rows.append("| %s | %s | %s | %s | %s | %s | %s | %s |" % (e["property_id"], e["tier"], c.get("evaluations"), c.get("distinct_nontrivial"),
                 c.get("states"), c.get("traces_validated_against_impl"), len(c.get("mc_runs", [])), e.get("wall_s")))
 coverage = "\n".join(rows)
+mrows = ["| campaign | property | mutants | caught at the first run | caught after strengthening | what the misses led to |", "|---|---|---|---|---|---|"]
+for d in sorted(glob.glob(V + "/seeded/mutants/*/campaign.json")):
+    c = json.load(open(d))
+    ms = c["mutants"]
+    late = [m for m in ms if m["caught_after"]]
+    never = [m for m in ms if not m["caught_first_run"] and not m["caught_after"]]
+    mrows.append("| %s | %s | %d | %d | %d%s | %s |" % (c["tag"], c["property"], len(ms), sum(m["caught_first_run"] for m in ms), len(late),
+                 (" (%d not caught)" % len(never)) if never else "",
+                 "; ".join("%s (%s): %s" % (m["i"], m.get("env") or m.get("property"), m["caught_after"].replace("|", "/")) for m in late)
+                 + ("; NOT CAUGHT: " + "; ".join("%s %s" % (m["i"], m["what"][:120].replace("|", "/")) for m in never) if never else "")))
 s = open(V + "/DESIGN.md").read()
+s = block("mutants", "\n".join(mrows), s)
 s = block("seeded", seeded, s)
 s = block("findings", "\n".join(frows), s)
 s = block("coverage", coverage, s)
